@@ -46,6 +46,10 @@ def interpret_gate(ctx, fn, file, cls, facts, catalog):
     return dict(result=res, effects=effects, query=query)
 
 
+def _class_method_names(cls):
+    return [m.name for m in cls.body if isinstance(m, ast.FunctionDef)]
+
+
 def fact_space():
     for ent, ints, udf, ct, preds in itertools.product(
             ([], ['e']), (set(), {'int1'}, {'files'}, {'views'}, {'int1', 'int2'}), ([], ['f']), ('api', 'sql', 'no-class-type', 'not-in-catalog'), ([], ['p'])):
@@ -111,42 +115,74 @@ def run(ctx):
                     ctx.ob('C11.gate', f'{name}:returns-integration:{label}', r['result'] == 'int1',
                            f'{name} returns {r["result"]!r} instead of the single integration', file=file, line=fn.lineno)
     ctx.setcount('gate_rows', nrows)
-    # PlanJoin.plan: accept path
+    # PlanJoin.plan and QueryPlanner.from_query, interpreted with the gate's answer given: on acceptance nothing but the one fetch happens --------------
     plan = function_named(pj, 'plan')
     ctx.need(plan is not None, 'PlanJoin.plan not found')
-    first_if = [s for s in plan.body if isinstance(s, ast.If)]
-    ctx.need(first_if, 'PlanJoin.plan: gate test not found')
-    gi = first_if[0]
-    gvar = norm(gi.test)
-    asg = [s for s in plan.body if isinstance(s, ast.Assign) and norm(s.targets[0]) == gvar and 'check_single_integration' in norm(s.value)]
-    ctx.ob('C11.one-step', 'PlanJoin.plan:gate-first', bool(asg) and plan.body.index(asg[0]) < plan.body.index(gi)
-           and all(isinstance(s, (ast.Expr, ast.Assign)) and (s is asg[0] or isinstance(getattr(s, 'value', None), ast.Constant)) for s in plan.body[:plan.body.index(gi)]),
-           'PlanJoin.plan does something before consulting the single-integration gate', file=PJ, line=plan.lineno)
-    if asg:
-        qarg = norm(asg[0].value.args[0]) if asg[0].value.args else '?'
-        calls = [n for s in gi.body for n in ast.walk(s) if isinstance(n, ast.Call)]
-        prep = [c for c in calls if norm(c.func).endswith('prepare_integration_select')]
-        adds = [c for c in calls if norm(c.func).endswith('.add_step')]
-        fetch = [c for c in calls if (dotted(c.func) or '').split('.')[-1] == 'FetchDataframeStep']
-        ok = len(prep) == 1 and len(adds) == 1 and len(fetch) == 1 and [norm(a) for a in prep[0].args] == [gvar, qarg] \
-            and {k.arg: norm(k.value) for k in fetch[0].keywords} == {'integration': gvar, 'query': qarg} \
-            and isinstance(gi.body[-1], ast.Return) and prep[0].lineno < adds[0].lineno
-        ctx.ob('C11.one-step', 'PlanJoin.plan:accept-path', ok,
-               f'PlanJoin.plan: on acceptance exactly prepare_integration_select({gvar}, {qarg}); add_step(FetchDataframeStep(integration={gvar}, '
-               f'query={qarg})); return - found prepare={[norm(c)[:60] for c in prep]} fetch={[norm(c)[:80] for c in fetch]}', file=PJ, line=gi.lineno)
-    # from_query: accepted -> return self.plan at once
+
+    class Delegate:
+        _interp_safe = True
+
+        def __init__(self, name, log):
+            self.name, self.log = name, log
+
+        def plan(self, *a, **k):
+            self.log.append((f'{self.name}.plan', list(a)))
+            return Obj('DelegatedStep')
+    for answer in ('int1', None):
+        effects = []
+        query = Obj('Select', _analysed=True)
+        planner = Obj('QueryPlanner', plan=Obj('QueryPlan'), integrations={'int1': {}})
+
+        def add_step(it, step):
+            effects.append(('add_step', [step]))
+            return Obj('AddedStep', step=step)
+        stubs = {'self.check_single_integration': lambda it, q: (effects.append(('gate', [q])), answer)[1],
+                 'self.planner.prepare_integration_select': lambda it, *a: effects.append(('prepare_integration_select', list(a))),
+                 'self.planner.plan.add_step': add_step,
+                 'self.is_timeseries': lambda it, q: False,
+                 'FetchDataframeStep': lambda it, *a, **k: Obj('FetchDataframeStep', _pos=a, **k),
+                 'PlanJoinTSPredictorQuery': lambda it, *a: Delegate('PlanJoinTSPredictorQuery', effects),
+                 'PlanJoinTablesQuery': lambda it, *a: Delegate('PlanJoinTablesQuery', effects)}
+        it = Interp.for_file(ctx.src, PJ, {}, stubs)
+        try:
+            res = it.call_function(plan, [Obj('PlanJoin', planner=planner), query], {}, Env())
+        except Raised as r:
+            res = f'<{r.exc_name}>'
+        kinds = [e[0] for e in effects]
+        ctx.ob('C11.one-step', 'PlanJoin.plan:gate-first', kinds[:1] == ['gate'] and effects[0][1][0] is query and kinds.count('gate') == 1,
+               f'PlanJoin.plan must consult the single-integration gate once, with the query, before anything else; it did {kinds}', file=PJ, line=plan.lineno)
+        if answer:
+            r = dict(result=res, query=query)
+            _check_effects(ctx, 'PlanJoin.plan', plan, r, [e for e in effects if e[0] != 'gate'], PJ, 'the gate accepted')
+        else:
+            ctx.ob('C11.one-step', 'PlanJoin.plan:refuse-no-effect', not [k for k in kinds if k in ('prepare_integration_select', 'add_step')],
+                   f'PlanJoin.plan: the gate refused but the query was rewritten / fetched by plan() itself: {kinds}', file=PJ, line=plan.lineno)
     fq = function_named(qp, 'from_query')
     ctx.need(fq is not None, 'from_query not found')
-    ok = False
-    for n in ast.walk(fq):
-        if isinstance(n, ast.If) and 'check_single_integration' in norm(n.test):
-            par = n._parent
-            first = isinstance(par, ast.If) and par.body and par.body[0] is n and 'Select' in norm(par.test)
-            ok = first and len(n.body) == 1 and isinstance(n.body[0], ast.Return) and norm(n.body[0].value) == 'self.plan' \
-                and isinstance(n.test, ast.Call) and [norm(a) for a in n.test.args] == ['query']
-    ctx.ob('C11.one-step', 'from_query:return-at-once', ok,
-           'from_query must consult check_single_integration(query) first for SELECT / set operations and return self.plan at once when it accepted',
-           file=QP, line=fq.lineno)
+    for kind, accept in itertools.product(('Select', 'Union', 'Except', 'Intersect'), (True, False)):
+        effects = []
+        query = Obj(kind, _analysed=True)
+        stubs = {'QueryPlan': lambda it, *a, **k: Obj('QueryPlan', _new=True),
+                 'self.check_single_integration': lambda it, q: (effects.append(('gate', [q])), Obj('AddedStep') if accept else None)[1]}
+        for m in _class_method_names(qp):
+            if m.startswith('plan_'):
+                stubs[f'self.{m}'] = (lambda m_: (lambda it, *a, **k: effects.append((m_, list(a)))))(m)
+        it = Interp.for_file(ctx.src, QP, {k: set() for k in ('Select', 'Union', 'Except', 'Intersect')}, stubs)
+        self_ = Obj('QueryPlanner', query=Obj('Select', _own=True), plan=None)
+        try:
+            res = it.call_function(fq, [self_, query], {}, Env())
+        except Raised as r:
+            res = f'<{r.exc_name}>'
+        kinds = [e[0] for e in effects]
+        new_plan = self_.attrs.get('plan')
+        if accept:
+            ok = kinds == ['gate'] and effects[0][1][0] is query and isinstance(res, Obj) and res is new_plan and res.attrs.get('_new')
+            msg = (f'from_query({kind}) with an accepting gate must consult check_single_integration(query) once and return the (new) plan at once; it did {kinds} '
+                   f'and returned {res!r}')
+        else:
+            ok = kinds[:1] == ['gate'] and kinds.count('gate') == 1 and len(kinds) == 2 and effects[1][1][:1] == [query] and res is new_plan
+            msg = f'from_query({kind}) with a refusing gate must go on to plan the same query once; it did {kinds}'
+        ctx.ob('C11.one-step', f'from_query:{kind}:{"accepted" if accept else "refused"}', ok, msg, file=QP, line=fq.lineno)
     # rewrite write-set -------------------------------------------------------------------------------------------------------
     pis = function_named(qp, 'prepare_integration_select')
     ctx.need(pis is not None, 'prepare_integration_select not found')
